@@ -133,6 +133,15 @@ func init() {
 	add(word("$", wLit("$")))
 	add(word("a$", wLit("a"), wLit("$")))
 	add(word("$v$", wPE("v"), wLit("$")))
+	// tildes: at the start of a word, after "=" and ":" of an assignment, and after other parts of the word
+	for _, t := range []string{"~", "~/a", "x=~", "x=a:~"} {
+		add(word(t))
+	}
+	add(word("$v:~", wPE("v"), wLit(":~")))
+	add(word("~$v", wLit("~"), wPE("v")))
+	add(word("x=$v:~", wLit("x="), wPE("v"), wLit(":~")))
+	add(word(`x="$v":~b`, wLit("x="), wDQ(wPE("v")), wLit(":~b")))
+	add(word("${v:-$w:~}", wPEB("v", ":-", ast.Word{wPE("w"), wLit(":~")})))
 	// multi-byte and multi-line words (positions must count characters)
 	add(word("'é'", wSQ("é")))
 	add(word(`"é$v"`, wDQ(wLit("é"), wPE("v"))))
